@@ -211,6 +211,6 @@ Qed.
 Example pipeline_guard_holds : guard_db p_ok2 db5 /\ guard_db p_inv db5 /\ has_shadow p_ok2 = false /\ pred_quote p_ok2 = false.
 Proof. unfold guard_db. vm_compute. repeat split. Qed.
 Example canonical_ops_example :
-  ids_of (run_ops current true db5
-            (OQuery p_ok2 :: order_ops [(OIdKey, true)] ++ slice_ops [(Some 1%Z, None)])) = ["f2"; "f0"].
+  ids_of (run_ops current false db5
+            (OQuery p_ok2 :: order_ops [(OIdKey, true)] ++ slice_ops [(Some 1%Z, None)])) = ["f0"].
 Proof. vm_compute. reflexivity. Qed.
